@@ -1,5 +1,6 @@
 import RawPanelVerif.Lemmas.PixLemmas
 import RawPanelVerif.Lemmas.PixGray
+import RawPanelVerif.Lemmas.MonoOps
 import RawPanelVerif.Spec.PixSpec
 /-!
 # C17 — pixel-format conversions agree with each other and with the mono bitmap
@@ -20,6 +21,11 @@ included), all bit patterns, all data lengths and all target canvas sizes; nothi
 Also: `sliceGray_content` (every byte of the grey export for **every** width, odd ones included), `export_of_long`
 (`CreateFromBytes` with a slice longer than `⌈w/8⌉·h`: the C16 constructor, well-formed, exports unaffected).
 `short_mono_png_black_counterexample`: the defect of the pinned tree (repaired by `fix-C17-short-mono.patch`).
+Objects in use (`Model/Pix.lean` `Obj`, `ObjCall`: the `pix.obj` records): `applyObj_good` / `runObj_good` (no call of any
+history panics, the canvas stays well-formed), `obj_export_holds` (clause (1) after ANY call history, for the colours the
+object shows at that moment), `obj_roundtrip_holds` (a conversion into a used object does not depend on what it held;
+clause (3)), `obj_self_roundtrip_holds`.  The placement fields `XYoffset`/`X`/`Y` of a graphics message are not parameters of
+any modelled conversion nor of `Spec.Pix.checkGfx` (records `pix.gfxo` set them; `rwp_centering` is the placement rule).
 
 **Observations outside the domain** (the property quantifies over "declared sizes up to a few hundred pixels"; `HWCGfx.W/H`
 are `uint32` taken from the message unchecked; reproduced on the unchanged library with a state of one data byte):
@@ -382,6 +388,103 @@ theorem export_of_long (w h : Nat) (bytes : Array Byte) (hlen : ((w + 7) / 8) * 
   have gh : (createFromBytes w h bytes).1.geo.H = h := by rw [e1]; rfl
   rw [gw, gh] at this
   exact this
+
+/-! ## One object used more than once: any call history (`pix.obj`) -/
+
+/-- what every reachable object satisfies: well-formed canvas, 16-bit colours -/
+def ObjGood (o : Obj) : Prop := o.c.WF ∧ o.pcol < 65536 ∧ o.bcol < 65536
+
+/-- calls a caller can make: the fresh image of `fromMono` is built from at least its `⌈w/8⌉·h` bytes -/
+def CallValid : ObjCall → Prop
+  | .fromMono w h _ bits => (w + 7) / 8 * h ≤ bits.size
+  | _ => True
+
+theorem color565_lt (code : Nat) : color565 code < 65536 := Nat.mod_lt _ (by decide)
+
+theorem newCanvas_wf (w h : Nat) : (newCanvas w h).WF := by
+  unfold Canvas.WF newCanvas; simp only [Array.size_replicate]; omega
+
+theorem recreated_good (c : Canvas) (h : c.WF) : ObjGood (Obj.recreated c) :=
+  ⟨h, by show (0xFFFF : Nat) < 65536; decide, by show (0 : Nat) < 65536; decide⟩
+
+theorem fromImage_good (src : Img) : ∃ cv, fromImage src = some cv ∧ ObjGood (Obj.recreated cv) := by
+  obtain ⟨cv, h1, h2, h3, _⟩ := fromImage_spec src
+  refine ⟨cv, h1, recreated_good cv ?_⟩
+  unfold Canvas.WF
+  rw [h2, h3]
+  simp only [newCanvas]
+  omega
+
+/-- **no call on a good object panics, and the object stays good** -/
+theorem applyObj_good (o : Obj) (hg : ObjGood o) (call : ObjCall) (hv : CallValid call) : ∃ o', applyObj o call = some o' ∧ ObjGood o' := by
+  cases call with
+  | pixelColor code => exact ⟨_, rfl, hg.1, color565_lt code, hg.2.2⟩
+  | bckgColor code => exact ⟨_, rfl, hg.1, hg.2.1, color565_lt code⟩
+  | newImage w h => exact ⟨_, rfl, recreated_good _ (newCanvas_wf w h)⟩
+  | fromBytes w h bytes =>
+    refine ⟨_, rfl, recreated_good _ ?_⟩
+    obtain ⟨g1, g2, _⟩ := createFromBytes_spec w h bytes
+    unfold Canvas.WF
+    refine ⟨?_, g2⟩
+    rw [g1]; simp only [newCanvas]; omega
+  | fillRect x y w h col => exact ⟨_, rfl, (fillRect_paint o.c hg.1 x y w h col).wf, hg.2.1, hg.2.2⟩
+  | fromMono w h inv bits =>
+    have hwf : (canvasOfBits w h bits).WF := by
+      unfold Canvas.WF canvasOfBits newCanvas; simp only []; exact ⟨by omega, hv⟩
+    obtain ⟨img, i1, _⟩ := toImage_spec (canvasOfBits w h bits) hwf.1 hwf.2 inv
+    obtain ⟨cv, c1, c2⟩ := fromImage_good img
+    exact ⟨Obj.recreated cv, by simp [applyObj, i1, c1], c2⟩
+  | fromImg src =>
+    obtain ⟨cv, c1, c2⟩ := fromImage_good src
+    exact ⟨Obj.recreated cv, by simp [applyObj, c1], c2⟩
+  | selfRoundtrip inv =>
+    obtain ⟨img, i1, _⟩ := toImage_spec o.c hg.1.1 hg.1.2 inv
+    obtain ⟨cv, c1, c2⟩ := fromImage_good img
+    exact ⟨Obj.recreated cv, by simp [applyObj, i1, c1], c2⟩
+  | exports => exact ⟨o, rfl, hg⟩
+
+theorem runObj_good (calls : List ObjCall) (o : Obj) (hg : ObjGood o) (hv : ∀ c ∈ calls, CallValid c) :
+    ∃ o', runObj o calls = some o' ∧ ObjGood o' := by
+  induction calls generalizing o with
+  | nil => exact ⟨o, rfl, hg⟩
+  | cons call rest ih =>
+    obtain ⟨o1, a1, g1⟩ := applyObj_good o hg call (hv call (by simp))
+    obtain ⟨o2, a2, g2⟩ := ih o1 g1 (fun c hc => hv c (by simp [hc]))
+    exact ⟨o2, by simp [runObj, a1, a2], g2⟩
+
+/-- **Exports of an object in use**: after ANY call history on one object (colour setters, (re)creations from sizes, byte
+slices — short, exact, long — and image objects, drawing, earlier exports, in any order) no call has panicked and both
+exports satisfy clause (1) for the colours the object's fields show at that moment and the bitmap it holds then.  (Every
+prefix of a history is a history, so this is the statement for every export made along the way.) -/
+theorem obj_export_holds (calls : List ObjCall) (hv : ∀ c ∈ calls, CallValid c) :
+    ∃ o, runObj {} calls = some o ∧ ∃ rgb gray, sliceRGB o.c o.pcol o.bcol = some rgb ∧ sliceGray o.c o.pcol o.bcol = some gray ∧
+      Spec.Pix.checkExport o.c.geo.W o.c.geo.H (getPx o.c) o.pcol o.bcol rgb.size (byteAt rgb) gray.size (byteAt gray) = none := by
+  obtain ⟨o, h1, hg⟩ := runObj_good calls {} ⟨newCanvas_wf 0 0, by decide, by decide⟩ hv
+  exact ⟨o, h1, export_holds o.c hg.1 o.pcol o.bcol hg.2.1 hg.2.2⟩
+
+/-- **Conversion into an object in use**: `CreateFromImage` of a converted mono image gives the same object whatever the
+destination held before (size, bits, colours), and the result satisfies clause (3) -/
+theorem obj_roundtrip_holds (o : Obj) (w h : Nat) (inv : Bool) (bits : Array Byte) (hv : (w + 7) / 8 * h ≤ bits.size) :
+    applyObj o (.fromMono w h inv bits) = applyObj {} (.fromMono w h inv bits) ∧
+    ∃ o', applyObj o (.fromMono w h inv bits) = some o' ∧
+      Spec.Pix.checkRoundtrip w h inv (getPx (canvasOfBits w h bits)) o'.c.geo.W o'.c.geo.H (getPx o'.c) = none := by
+  refine ⟨rfl, ?_⟩
+  have hwf : (canvasOfBits w h bits).WF := by
+    unfold Canvas.WF canvasOfBits newCanvas; simp only []; exact ⟨by omega, hv⟩
+  obtain ⟨img, back, h1, h2, h3⟩ := roundtrip_holds (canvasOfBits w h bits) hwf inv
+  exact ⟨Obj.recreated back, by simp [applyObj, h1, h2], h3⟩
+
+/-- the same for the object's own image: `CreateFromImage(ConvertToImage(inv))` on one and the same good object -/
+theorem obj_self_roundtrip_holds (o : Obj) (hg : ObjGood o) (inv : Bool) :
+    ∃ o', applyObj o (.selfRoundtrip inv) = some o' ∧
+      Spec.Pix.checkRoundtrip o.c.geo.W o.c.geo.H inv (getPx o.c) o'.c.geo.W o'.c.geo.H (getPx o'.c) = none := by
+  obtain ⟨img, back, h1, h2, h3⟩ := roundtrip_holds o.c hg.1 inv
+  exact ⟨Obj.recreated back, by simp [applyObj, h1, h2], h3⟩
+
+/-- non-vacuity: a history with a colour set before a re-creation, a conversion into the used object and an export; the
+re-creation has reset the colours (the export is white on black, not the colour set before) -/
+example : (runObj {} [.bckgColor 63, .newImage 9 2, .fillRect 0 0 9 2 true, .fromMono 9 2 true #[0xAA#8, 0, 0x55#8, 0x80#8], .exports]).map
+    (fun o => (o.pcol, o.bcol, o.c.geo.W, o.c.geo.H)) = some (0xFFFF, 0, 9, 2) := by decide +kernel
 
 /-- **no panic**: no modelled routine ever indexes outside a slice or fails an allocation (`none` is the model's panic) —
 the graphics-state routines for every format, **data length** (shorter, equal, longer) and every declared / target size
